@@ -55,7 +55,11 @@ def bounds(tier):
     """list of (calls, fragment cap) configurations; every kind sequence of each is checked"""
     if tier == "quick":
         return [dict(calls=2, cap=3, amt=2)]
-    return [dict(calls=2, cap=4, amt=2), dict(calls=3, cap=2, amt=2, min_text=2)]
+    # measured on the repaired source.rs (commit 717df73): 2 text calls x 4 chars each is NOT decided within the
+    # 300 s cap as one query and needs ~23 min as 25 length cubes, so the thorough tier widens along other axes
+    return [dict(calls=2, cap=3, amt=2),
+            dict(calls=3, cap=2, amt=2, min_text=3),
+            dict(calls=2, cap=4, caps=[3, 4], amt=2, only=[(0, 0)])]
 
 
 # --------------------------------------------------------------------------- interpretation
@@ -501,7 +505,8 @@ def check_combo(args):
     import core
     kinds, tier, seed, B, second = args
     K = len(kinds)
-    name = "k%dc%d_" % (K, B["cap"]) + "-".join(KINDS[k][0] + KINDS[k][-1] for k in kinds)   # pr = push_str, pl = literal, it, dt
+    caps = B.get("caps") or [B["cap"]] * K
+    name = "k%dc%s_" % (K, "".join(str(c) for c in caps) if B.get("caps") else B["cap"]) + "-".join(KINDS[k][0] + KINDS[k][-1] for k in kinds)   # pr = push_str, pl = literal, it, dt
     combo = ",".join(KINDS[k] for k in kinds)
     stats = core.Stats()
     dec = core.Decider("C25/" + name, tier, stats)
@@ -525,14 +530,15 @@ def _check_combo(kinds, tier, seed, B, name, combo, dec, res):
     asts = load_asts(FILES)
     has_lit = 1 in kinds
     n_text = sum(1 for k in kinds if k in (0, 1))
-    limits = dict(int_limit=2 * K, str_limit=(n_text * B["cap"] + len(PROBE)) * 2 + 4)
+    caps = B.get("caps") or [B["cap"]] * K
+    limits = dict(int_limit=2 * K, str_limit=(sum(caps[i] for i in range(K) if kinds[i] in (0, 1)) + len(PROBE)) * 2 + 4)
     for attempt in range(6):
         it = Interp(asts, dict(tighten="clamp", **limits))
         inp = Inputs()
         calls = []
         for i in range(K):
             # inputs a call kind does not use are fixed, so that models are canonical
-            t = inp.str("t%d" % i, B["cap"] if kinds[i] in (0, 1) else 0, ALPHABET)
+            t = inp.str("t%d" % i, caps[i] if kinds[i] in (0, 1) else 0, ALPHABET)
             a = inp.usize("a%d" % i, B["amt"] if kinds[i] in (2, 3) else 0)
             calls.append((kinds[i], t, a))
         it.assume(inp.wf())
@@ -568,7 +574,7 @@ def _check_combo(kinds, tier, seed, B, name, combo, dec, res):
     for _ in range(12):
         vals = {}
         for i in range(K):
-            vals["t%d" % i] = "".join(rnd.choice(ALPHABET) for _ in range(rnd.randint(0, B["cap"]))) if kinds[i] in (0, 1) else ""
+            vals["t%d" % i] = "".join(rnd.choice(ALPHABET) for _ in range(rnd.randint(0, caps[i]))) if kinds[i] in (0, 1) else ""
             vals["a%d" % i] = rnd.randint(0, B["amt"]) if kinds[i] in (2, 3) else 0
         vl.append(vals)
     nat = native_run([native_case(ops_of(kind_vals(v), K)) for v in vl])
@@ -626,7 +632,20 @@ def _check_combo(kinds, tier, seed, B, name, combo, dec, res):
         else:
             f, sh = ("Source" if clause == "no-panic" else fn), shape
         return "C25/rs2smt/%s/%s/%s" % (f, clause, sh)
-    hunt_multi(dec, res, "C25", "clauses@" + name, base, clauses, shapes, inp, replay_fn, role_of,
+    # case split for the expensive configurations: one query per combination of fragment lengths; that the
+    # cubes cover every input is itself an obligation (`cover`)
+    cubes = None
+    if n_text >= 2 and B["cap"] >= 4:
+        import itertools
+        tx = [calls[i][1].b for i in range(K) if kinds[i] in (0, 1)]
+        cubes = [And(*[Eq(b.n, L(l)) for b, l in zip(tx, lens)]) for lens in itertools.product(*[range(b.cap + 1) for b in tx])]
+        res.obligations += 1
+        v, _, note = dec.decide("cover@" + name, [inp.wf()], Or(*cubes), second="cover")
+        if v != "unsat":
+            res.inconclusive.append("[%s] the case split does not cover the inputs (%s %s)" % (combo, v, note))
+            return
+        res.discharged += 1
+    hunt_multi(dec, res, "C25", "clauses@" + name, base, clauses, shapes, inp, replay_fn, role_of, cubes=cubes,
                sample="[%s] (i) text-preserved, (ii) indent-follows-braces, (ii-w), (iv) balanced-restores%s, no-panic; "
                       "fragments <= %d chars, amounts <= %d" % (combo, ", (iii) literal-neutral" if has_lit else "", B["cap"], B["amt"]))
     if tier == "thorough" and n_text >= 1:
@@ -643,7 +662,9 @@ def run(ctx):
     res.bounds = {"calls": "; ".join("every sequence of %d calls over {push_str, push_str_literal, indent, deindent}%s (kind sequences "
                                      "enumerated; texts and amounts symbolic) with fragments = every string of length <= %d over "
                                      "{a, space, '{', '}', '/', newline}"
-                                     % (B["calls"], " containing at least %d text calls" % B["min_text"] if B.get("min_text") else "",
+                                     % (B["calls"], (" containing at least %d text calls" % B["min_text"] if B.get("min_text") else "")
+                                        + (" restricted to the kind sequences %s with per-call caps %s" % (
+                                            [[KINDS[k] for k in c] for c in B["only"]], B.get("caps")) if B.get("only") else ""),
                                         B["cap"]) for B in BS)
                            + "; each followed by the probe push_str(%r)" % PROBE,
                   "amounts": "0..%d" % BS[0]["amt"], "start_state": "Source::default()"}
@@ -665,15 +686,15 @@ def run(ctx):
     jobs = []
     for B in BS:
         for c in itertools.product(range(4), repeat=B["calls"]):
-            if sum(1 for k in c if k in (0, 1)) >= B.get("min_text", 0):
+            if sum(1 for k in c if k in (0, 1)) >= B.get("min_text", 0) and (not B.get("only") or c in B["only"]):
                 jobs.append((c, B))
     # hardest first (most symbolic text) so that the pool stays busy
-    jobs.sort(key=lambda j: -sum(j[1]["cap"] for k in j[0] if k in (0, 1)))
+    jobs.sort(key=lambda j: -sum((j[1].get("caps") or [j[1]["cap"]] * len(j[0]))[i] for i, k in enumerate(j[0]) if k in (0, 1)))
     combos = jobs
     with multiprocessing.get_context("fork").Pool(2) as pool:       # 2 workers x 2 racing solvers = 4 cores
         # second opinions (all three solvers run to completion/cap): one kind sequence in the quick tier,
         # two (not the most expensive ones) in the thorough tier
-        sec = {0} if tier == "quick" else {3, 4}
+        sec = {0} if tier == "quick" else {2, 9}
         outs = pool.map(check_combo, [(c, tier, seed, B, i in sec) for i, (c, B) in enumerate(jobs)], chunksize=1)
     seen_roles = set()
     caps = []
